@@ -271,9 +271,18 @@ class AsyncFIXConnection:
         #   journaling, and a MsgSeqNum that may have reached the peer is never
         #   forgotten (if the process dies before the write the peer sees a gap and
         #   the message is resent from the journal)
-        self._journaler.persist_msg(
-            encoded_msg, self._session, MessageDirection.OUTBOUND
-        )
+        if (
+            msg.msg_type == FMsg.SEQUENCERESET
+            or msg.get(FTag.PossDupFlag, "N") == "Y"
+        ):
+            # MsgSeqNum was not allocated by this call (retransmission / gap fill)
+            self._journaler.persist_msg(
+                encoded_msg, self._session, MessageDirection.OUTBOUND, replace=True
+            )
+        else:
+            self._journaler.persist_msg(
+                encoded_msg, self._session, MessageDirection.OUTBOUND
+            )
 
         self._socket_writer.write(encoded_msg)
         await self._socket_writer.drain()
@@ -625,12 +634,11 @@ class AsyncFIXConnection:
         journal_replay_msgs = self._journaler.recover_messages(
             self._session, MessageDirection.OUTBOUND, begin_seq_no, end_seq_no
         )
-        # Resent messages / gap fills are journaled again under their MsgSeqNum.
-        #   The session's next_num_out is left alone: other tasks may send new
-        #   messages while the replay awaits the transport or the application hooks
-        self._journaler.purge_msgs(
-            self._session, MessageDirection.OUTBOUND, begin_seq_no, end_seq_no
-        )
+        # Resent messages / gap fills replace the journaled ones one by one as they
+        #   are sent (see send_msg): whatever interrupts the replay, the messages not
+        #   resent yet are still in the journal. The session's next_num_out is left
+        #   alone: other tasks may send new messages while the replay awaits the
+        #   transport or the application hooks
         gap_fill_begin = int(begin_seq_no)
 
         noreply_msgs = {
@@ -680,11 +688,6 @@ class AsyncFIXConnection:
         # Remainder of the requested range
         if gap_fill_begin <= end_seq_no:
             await send_gap_fill(gap_fill_begin, end_seq_no + 1)
-
-        # Stored next_num_out follows the last journaled message, put it back
-        self._journaler.set_seq_num(
-            self._session, next_num_out=self._session.next_num_out
-        )
 
         if self._connection_state != ConnectionState.RESENDREQ_AWAITING:
             await self._state_set(ConnectionState.ACTIVE)
